@@ -12,6 +12,8 @@ Line protocol of the C16 correspondence run (same request file as harness/src/bi
   `(inscols <eng> (decls …) (cols i…) (rows …))`  INSERT INTO t(c_i…) VALUES …, same answer format
   `(inssel <eng> (src (<TY> <n>)*) (decls …) (rows …))`  rows into s, then INSERT INTO t SELECT * FROM s
 
+  `(selcast <eng> (src (<TY> null)) <TY> (rows (v)*))`  rows into s, then SELECT CAST(c0 AS TY) FROM s; `ERR` when the query fails
+
   texpr : `(leaf T)` | `bad` | `(cast T a)` | `(neg a)` | `(+|-|*|/|% a b)` | `(|| a b)` | `(like a b)`
           | `(not a)` | `(=|<>|>|<|>=|<= a b)` | `(and|or|xor a b)` | `(if c t e)` | `(in x (list a*))`
           | `(isnull a)` | `(extract a)` | `(substring s a b)` | `(repeat s n)` | `(replace a f t)`
@@ -183,6 +185,21 @@ def answer (line : String) : String :=
       let tags := (stags ++ ((if stored.isEmpty then [] else src).map (rowTags e decls)).flatten).eraseDups
       "ok " ++ showRows (stored.map (readRow e decls)) ++ " ;; ok " ++ showRows (specInsertSelect decls src)
         ++ " ;; " ++ " ".intercalate tags
+    | _, _, _ => "bad-request"
+  | some (.list [.atom "selcast", .atom eng, .list (.atom "src" :: ss), .atom ty,
+      .list (.atom "rows" :: rs)]) =>
+    match parseDecls ss, parseTyName ty, parseValRows rs with
+    | some sdecls, some t, some rows =>
+      let e := if eng == "disk" then Engine.disk else Engine.mem
+      let src := selectAll e sdecls rows
+      let showRows := fun (rs : List (List IVal)) =>
+        " ".intercalate (insertionSortStr (rs.map fun r => "(" ++ " ".intercalate (r.map showIVal) ++ ")"))
+      -- `SELECT CAST(c0 AS T) FROM s`: one statement over one chunk: every row converts or it fails
+      let d : List ColDecl := [⟨t, true⟩]
+      let out := if src.all (fun r => (castRow d r).isOk) then showRows (insertAll d src) else "ERR"
+      let spec := if src.all (fun r => (specRow d r).isOk) then showRows (specTable d src) else "ERR"
+      let tags := ((if out == "ERR" then [] else src).map (rowTags e d)).flatten.eraseDups
+      "ok " ++ out ++ " ;; ok " ++ spec ++ " ;; " ++ " ".intercalate tags
     | _, _, _ => "bad-request"
   | _ => "bad-request"
 
